@@ -25,6 +25,8 @@ pub struct Config {
     pub rmatch_map: bool,
     /// R-match (opt-in): `e.map(Ok)` on a Result
     pub rmatch_map_ok: bool,
+    /// R-match (opt-in): `e.map(|p| body)` where the receiver is a RESULT -> `match e { Ok(p) => Ok(body), Err(x) => Err(x) }`
+    pub rmatch_map_result: bool,
     /// R-capture: variables captured (and mutated) by the extracted closure, passed as `&mut` parameters
     pub capture_mut: Vec<String>,
     /// R-match (with rmatch_map_ok): `e.map(PATH)` on a Result for these function paths
@@ -84,6 +86,7 @@ impl Config {
             rderef: v["rderef"].as_bool().unwrap_or(true),
             rmatch_map: v["rmatch_map"].as_bool().unwrap_or(false),
             rmatch_map_ok: v["rmatch_map_ok"].as_bool().unwrap_or(false),
+            rmatch_map_result: v["rmatch_map_result"].as_bool().unwrap_or(false),
             capture_mut: strs(&v["capture_mut"]),
             rmatch_map_result_paths: strs(&v["rmatch_map_result_paths"]).iter().map(|s| norm(s)).collect(),
             drop_stmts: strs(&v["drop_stmts"]).iter().map(|s| norm(s)).collect(),
@@ -723,13 +726,23 @@ impl<'a, 'ast> Visit<'ast> for Rewriter<'a> {
                     if let Some(&at) = self.stmt_starts.last() {
                         let name = format!("__vx_c{}", self.hoist_n);
                         self.hoist_n += 1;
-                        let body = self.sf.slice(br).to_string();
-                        let text = if hdr.contains(" ensures ") {
-                            format!("let {} = {} {{ {} }};\n", name, hdr, body)
+                        // the hoisted body is ordinary code again: the rules apply inside it (nested closures stay where they are)
+                        let saved_depth = self.macro_depth;
+                        self.macro_depth = 0;
+                        self.visit_expr(&c.body);
+                        self.macro_depth = saved_depth;
+                        let pieces = if hdr.contains(" ensures ") {
+                            vec![Piece::Lit(format!("let {} = {} {{ ", name, hdr)), Piece::Src(br.0, br.1), Piece::Lit(" };\n".into())]
                         } else {
-                            format!("let {} = {} ensures o == ({}) {{ {} }};\n", name, hdr, body, body)
+                            vec![
+                                Piece::Lit(format!("let {} = {} ensures o == (", name, hdr)),
+                                Piece::Src(br.0, br.1),
+                                Piece::Lit(") { ".into()),
+                                Piece::Src(br.0, br.1),
+                                Piece::Lit(" };\n".into()),
+                            ]
                         };
-                        self.edits.insert(at, text, "R-hoist");
+                        self.edits.replace((at, at), pieces, "R-hoist");
                         self.edits.replace(whole, vec![Piece::Lit(name)], "R-hoist");
                         self.note("R-hoist", c.span());
                         return;
@@ -1254,6 +1267,33 @@ impl<'a, 'ast> Visit<'ast> for Rewriter<'a> {
                             Piece::Lit(") => Some(".into()),
                             Piece::Src(br.0, br.1),
                             Piece::Lit(") })".into()),
+                        ],
+                        "R-match",
+                    );
+                    self.note("R-match", m.span());
+                    return;
+                }
+            }
+        }
+        if self.cfg.rmatch_map_result && name == "map" && m.args.len() == 1 {
+            if let Expr::Closure(c) = &m.args[0] {
+                if c.inputs.len() == 1 && !has_escape(&c.body) {
+                    self.visit_expr(&m.receiver);
+                    self.visit_expr(&c.body);
+                    let rr = self.r(m.receiver.span());
+                    let pr = self.r(c.inputs[0].span());
+                    let br = self.r(c.body.span());
+                    let whole = self.r(m.span());
+                    self.edits.replace(
+                        whole,
+                        vec![
+                            Piece::Lit("(match ".into()),
+                            Piece::Src(rr.0, rr.1),
+                            Piece::Lit(" { Ok(".into()),
+                            Piece::Src(pr.0, pr.1),
+                            Piece::Lit(") => Ok(".into()),
+                            Piece::Src(br.0, br.1),
+                            Piece::Lit("), Err(__vx_e) => Err(__vx_e) })".into()),
                         ],
                         "R-match",
                     );
